@@ -693,6 +693,38 @@ theorem split_reinterleave_id (rows : SRows) (L : Int) (ps : PartSet) (blocks : 
   obtain ⟨a, b, c⟩ := Gv.Proofs.SitesSplit.split_reinterleave rows L ps blocks hr hinv htot h
   exact ⟨a, b, c, Gv.Proofs.SitesSplit.split_reinterleave_all rows L ps blocks hr hinv htot h⟩
 
+/-- **Every block of `Split` is the selection of its partition's sites, in increasing order, names and
+row order unchanged**: block `pi` is what `SelectSites` returns for the sites `j` with
+`parts[j] = pi` (the empty alignment when the partition has no site). -/
+theorem split_blocks (rows : SRows) (L : Int) (ps : PartSet) (blocks : List SRows) (hr : Rect rows L)
+    (hinv : PartInv ps) (h : split rows L ps = .ok blocks) (pi : Nat) (hpi : pi < ps.names.length) :
+    let cols := Gv.Proofs.SitesSplit.colsOf ps.parts pi
+    cols.Pairwise (· < ·) ∧ (∀ j, j ∈ cols ↔ j < ps.parts.length ∧ ps.parts.getD j (-1) = (pi : Int)) ∧
+    blocks[pi]? = some (if cols = [] then [] else rows.map fun r => (r.1, cols.map fun j => r.2.getD j 0)) ∧
+    (cols ≠ [] → selectSites rows L (cols.map fun (j : Nat) => (j : Int)) = .ok (blocks.getD pi [])) := by
+  obtain ⟨_, hlen, hb⟩ := Gv.Proofs.SitesSplit.split_eval rows L ps blocks h
+  have hmem : ∀ j, j ∈ Gv.Proofs.SitesSplit.colsOf ps.parts pi ↔ j < ps.parts.length ∧ ps.parts.getD j (-1) = (pi : Int) := by
+    intro j
+    simp only [Gv.Proofs.SitesSplit.colsOf, List.mem_filter, List.mem_range, beq_iff_eq]
+    rfl
+  have hblk : blocks[pi]? = some (if Gv.Proofs.SitesSplit.colsOf ps.parts pi = [] then [] else
+      rows.map fun r => (r.1, (Gv.Proofs.SitesSplit.colsOf ps.parts pi).map fun j => r.2.getD j 0)) := by
+    rw [hb, List.getElem?_map, List.getElem?_range hpi]
+    simp only [Option.map_some, List.isEmpty_iff]
+  refine ⟨(List.pairwise_lt_range).sublist List.filter_sublist, hmem, hblk, ?_⟩
+  intro hne
+  rw [List.getD_eq_getElem?_getD, hblk, if_neg hne]
+  simp only [Option.getD_some]
+  have hsites : ∀ s ∈ (Gv.Proofs.SitesSplit.colsOf ps.parts pi).map (fun (j : Nat) => (j : Int)), 0 ≤ s ∧ s < L := by
+    intro s hs
+    obtain ⟨j, hj, rfl⟩ := List.mem_map.mp hs
+    have := ((hmem j).mp hj).1
+    have := hinv.1
+    omega
+  obtain ⟨r, hr2⟩ := (selectSites_ok_iff rows L hr _).mpr hsites
+  rw [hr2, (selectSites_rows rows L _ r hr2).1]
+  simp [List.map_map, Function.comp_def]
+
 /-- `Split` never panics and fails exactly when there are fewer than two partitions or the table was
 built for another length -/
 theorem split_ok_iff (rows : SRows) (L : Int) (ps : PartSet) :
